@@ -97,7 +97,7 @@ theorem pathsL_std (env : PEnv) (orc : EvalOracles) (input : Bytes) (b : ConfBlo
     cases strlcpyFits PATH_MAX p <;> cases pathjoin PATH_MAX p (subdirName .new) <;> try rfl
     cases h1 : (env.stdinMode && !isStdinPath p || !env.stdinMode && isStdinPath p)
     · cases h2 : isStdinPath p
-      · simp only [Bool.false_eq_true, ↓reduceIte, maildirOpendir, bind_eq, pure_eq, ret_bind, call_bind, call_bind']
+      · simp only [Bool.false_eq_true, ↓reduceIte, maildirOpendir, bind_eq, pure_eq, call_bind, call_bind']
         congr 1; funext r
         cases r <;> rfl
       · rfl
@@ -113,6 +113,14 @@ theorem mainPL_std (env : PEnv) (orc : EvalOracles) (confOk : Bool) (conf : List
     mainPL stdLimits env orc confOk conf files input = mainP env orc confOk conf files input := by
   unfold mainPL mainP
   simp only [blocksL_std]
+  rfl
+
+
+theorem mainTextL_std (env : PEnv) (orc : EvalOracles) (rxOk : Pat → Bool) (defs : List (Bytes × Bytes))
+    (confText : Bytes) (files : Files) (input : Bytes) :
+    mainTextL stdLimits env orc rxOk defs confText files input = mainText env orc rxOk defs confText files input := by
+  unfold mainTextL mainText
+  simp only [mainPL_std]
   rfl
 
 end Mdsort.Proofs.Limits
